@@ -611,7 +611,7 @@ func runScheduled(run *core.Run) {
 		}
 		cfg.Seed = uint64(t.Draw(1<<30))<<1 | 1
 	}
-	run.Describe("schedule: granularity=%s policy=%s param=%d first=%d change-points=%v (estimated decision points: %d)", map[bool]string{true: "function-entry", false: "resolver-call"}[fine], sched.PolicyNames[cfg.Policy], cfg.Param, cfg.First, cfg.ChangePoints, total)
+	run.Describe("schedule: granularity=%s policy=%s param=%d first=%d change-points=%v (estimated decision points: %d)", map[bool]string{true: "statement", false: "resolver-call"}[fine], sched.PolicyNames[cfg.Policy], cfg.Param, cfg.First, cfg.ChangePoints, total)
 
 	// ---- the concurrent run: shared instances, real goroutines, invisible serialisation
 	racesBefore := raceorc.Errors()
@@ -648,7 +648,7 @@ func runScheduled(run *core.Run) {
 	run.Add("context-switches", int64(s.Switches()))
 	run.Count("scheduled-runs")
 	if fine {
-		run.Count("granularity/function-entry")
+		run.Count("granularity/statement")
 	} else {
 		run.Count("granularity/resolver-call")
 	}
